@@ -56,6 +56,21 @@ def gen_plan(seed, k):
             st.add(El("transition", {"event": "i%s" % name[1:], "target": nxt}))
     s.add(El("transition", {"event": "quit", "target": "f"}))
     root.add(El("final", {"id": "f"}))
+    if rp.random() < 0.6 and [n for n in chain if n.startswith("y")]:
+        # a region that only watches: its guarded eventless transitions become enabled by what the other region does, in a
+        # state that itself stays active (an event may only be taken once these have been taken, too)
+        root.children.remove(s)
+        par = El("parallel", {"id": "par"})
+        root.children.insert(0, par)
+        par.parent = root
+        par.add(s)
+        root.attrs["initial"] = "par"
+        wr = par.add(El("state", {"id": "wr", "initial": "b1"}))
+        watched = rp.choice([n for n in chain if n.startswith("y")])
+        b1 = wr.add(El("state", {"id": "b1"}))
+        b1.add(El("transition", {"cond": "In('%s')" % watched, "target": "b2"}))
+        b2 = wr.add(El("state", {"id": "b2"}))
+        b2.add(El("transition", {"cond": "In('w')", "target": "b1"}))
 
     nprod = rp.randint(1, 4)
     block = rp.choice([0, 1, 7, 50, -1, -1])
@@ -100,6 +115,20 @@ def eventless_sources(xml):
     return out
 
 
+def guarded_eventless(xml):
+    """(source, state named by the In() guard) of the watcher region's eventless transitions"""
+    import re
+    r = ET.fromstring(xml)
+    out = []
+    for e in r.iter():
+        if e.get("id"):
+            for t in e.findall(NS + "transition"):
+                m = re.match(r"In\('(\w+)'\)$", t.get("cond") or "")
+                if t.get("event") is None and m:
+                    out.append((e.get("id"), m.group(1)))
+    return out
+
+
 def oracle(plan, res):
     v = hard_failures(res, PROP)
     info = {"nontrivial": False, "sent": 0, "overlaps": 0}
@@ -109,6 +138,7 @@ def oracle(plan, res):
     b = Bindings(lines)
     extq, intq = b.ext.get("i0"), b.int.get("i0")
     eps = eventless_sources(plan["charts"]["main"])
+    geps = guarded_eventless(plan["charts"]["main"])
     actors = plan["actors"]
     # sends: (name, invoke seq, return seq, task)
     sends = {}
@@ -152,6 +182,11 @@ def oracle(plan, res):
         elif kd == "deq>" and r[SESS] == intq:
             if r[6]["name"]:
                 int_deq.append(r[6]["name"])
+                cfgs = set(last_cfg.split())
+                bad = [(a, g) for (a, g) in geps if a in cfgs and g in cfgs]
+                if bad:
+                    v.append(("C08.macrostep", "internal event %s dequeued while the guarded eventless transition of %s (In('%s')) was enabled in configuration %s" % (
+                        r[6]["name"], bad[0][0], bad[0][1], last_cfg)))
         elif kd == "deq>" and r[SESS] == extq:
             if deq_open is not None:
                 intervals.append((r[TASK], deq_open, r[SEQ]))
@@ -162,6 +197,11 @@ def oracle(plan, res):
                 bad = set(last_cfg.split()) & eps
                 if bad:
                     v.append(("C08.macrostep", "external event %s dequeued while an eventless transition was enabled in %s" % (r[6]["name"], sorted(bad))))
+                cfgs = set(last_cfg.split())
+                bad = [(a, g) for (a, g) in geps if a in cfgs and g in cfgs]
+                if bad:
+                    v.append(("C08.macrostep", "external event %s dequeued while the guarded eventless transition of %s (In('%s')) was enabled in configuration %s" % (
+                        r[6]["name"], bad[0][0], bad[0][1], last_cfg)))
         elif kd == "st" and r[SESS] == "i0":
             if r[6]:
                 last_cfg = r[6]
